@@ -14,7 +14,14 @@ returned for a recipient replayed to a newly created state does not fail the cur
 What is a parameter: the verdict of every check at every stage (`Verdicts`, the result of the
 real check after `FailAction.Apply`, reduced by `Res.eff` to what `runAndMergeResults` branches
 on), the completion order of the goroutines of every `runAndMergeResults` call (`Ord`), the DMARC
-policy outcome (`Dmarc`), routing (`route`, property C04) and the targets' own behaviour (`Tgt`).
+policy outcome (`Dmarc`), routing (`route`, property C04), the targets' own behaviour (`Tgt`) and
+the value `MsgMetadata.Quarantine` has when this pipeline gets the message (`Cfg.q0`): the
+metadata is shared by pointer with whoever hands the message over, and a `MsgPipeline` is itself a
+delivery target (`deliver_to &inner`, `reroute`), so an inner pipeline runs on a message the outer
+pipeline's checks / DMARC policy may already have flagged.  The runner looks at the flag in
+`applyResults` only and only ever raises it (`flag' = flag || …`), so "flagged by the outer pipeline
+between the inner pipeline's `Start` and its `Body`" (what really happens: the outer `applyResults`
+runs at the outer body stage, before the deliveries) and "flagged at `Start`" are the same input.
 Not modelled: modifiers, header/Authentication-Results merging, `CheckStateForMsg` errors, panics
 inside checks (recovered and logged by the runner).  `mailFromReceived` is always true when
 `checkStates` runs (`start` calls `checkConnSender` first), so it is not a field.
@@ -193,6 +200,7 @@ structure Cfg where
   route : Rcpt → Nat             -- `rcptBlockForAddr`
   tgt : TgtId → Tgt
   dmarc : Dmarc
+  q0 : Bool                      -- `msgMeta.Quarantine` as handed over (outer pipeline, endpoint)
 
 /-- `msgpipelineDelivery`. -/
 structure Dlv where
@@ -205,9 +213,9 @@ deriving Repr
 /-- `Start` / `start`: connection and sender checks of the global and of the source block. -/
 def start (o : Ord) (cfg : Cfg) : Dlv × Bool :=
   let p := checkStates o cfg.v CR.init cfg.global
-  if p.2 then (⟨p.1, [], [], false⟩, true) else
+  if p.2 then (⟨p.1, [], [], cfg.q0⟩, true) else
   let q := checkStates o cfg.v p.1 cfg.source
-  (⟨q.1, [], [], false⟩, q.2)
+  (⟨q.1, [], [], cfg.q0⟩, q.2)
 
 def addToDeliveries (ds : List (TgtId × List Rcpt)) (t : TgtId) (r : Rcpt) : List (TgtId × List Rcpt) :=
   if ds.any (fun d => d.1 == t) then ds.map (fun d => if d.1 == t then (d.1, d.2 ++ [r]) else d)
@@ -242,7 +250,9 @@ def checkBodyBlocks (o : Ord) (cfg : Cfg) : CR → List Nat → CR × Bool
     let p := checkBody o cfg.v cr (cfg.block b).checks
     if p.2 then p else checkBodyBlocks o cfg p.1 rest
 
-/-- `applyResults`: quarantine flag, DMARC action; the Boolean is `err != nil`. -/
+/-- `applyResults`: quarantine flag, DMARC action; the Boolean is `err != nil`.  The flag is only
+ever *raised* (`if mergedRes.Quarantine { msgMeta.Quarantine = true }`, `case PolicyQuarantine:
+msgMeta.Quarantine = true`): whatever it was before — raised by an outer pipeline — it stays. -/
 def applyResults (cfg : Cfg) (d : Dlv) : Dlv × Bool :=
   let d1 := { d with metaQ := d.metaQ || d.cr.mergedQ }
   match cfg.dmarc with
